@@ -31,7 +31,7 @@ from ..cfg import explore, FactDB
 from ..rules import call_sites, node_calls, node_assigns, event_facts, settle_sites, is_none
 from ..mutate import mutate, remove_stmts, replace_expr, replace_stmt, parse_stmt, parse_expr
 from ..model import AnalysisError
-from ..x_guardflow import ClassEffects, guard_facts, has, fold_conj_partial
+from ..x_guardflow import ClassEffects, guard_facts, has, fold_conj_partial, expand_expr
 
 TECHNIQUE = "guard-dominance dataflow with write summaries, take-and-clear lint, finite-domain folding of redirect/cross-origin predicates"
 EXPLANATION = (
@@ -60,11 +60,20 @@ CREDENTIAL_HEADERS = {"authorization", "cookie"}
 # admission
 
 
-def _capacity_implied(facts) -> bool:
+def _capacity_implied(facts, repo=None, fi=None) -> bool:
     """The facts known at the site imply len(self.active) < self.max_clients
-    (checked for every (len, max) in a small grid by constant folding)."""
-    db = FactDB()
-    rel = [(t, p) for (t, p) in facts if not t.startswith("@") and {"self.active", "self.max_clients"} <= db.paths(t)]
+    (checked for every (len, max) in a small grid by constant folding; calls of
+    small same-class helpers in a fact are inlined first)."""
+    rel = []
+    for (t, p) in facts:
+        if t.startswith("@"):
+            continue
+        e = ast.parse(t, mode="eval").body
+        if repo is not None and fi is not None and any(isinstance(x, ast.Call) for x in ast.walk(e)):
+            e = expand_expr(repo, fi, e, locals_too=False)
+        t2 = q.unparse(e)
+        if {"self.active", "self.max_clients"} <= q.paths_in(e):
+            rel.append((t2, p))
     if not rel:
         return False
     for a in range(0, 6):
@@ -126,7 +135,7 @@ def admission(ck):
                 gf = guard_facts(fi, eff)
             nodes = fi.cfg.nodes_for(st)
             ck.need(nodes, "admission store in %s is unreachable" % fi.qualname)
-            ok = all(_capacity_implied(gf[n.id]) for n in nodes)
+            ok = all(_capacity_implied(gf[n.id], repo, fi) for n in nodes)
             if not ok and fi is not pq:
                 # helper extraction: accept when every call site of the helper is guarded
                 sites = [(cf, c) for cf in methods for c in q.calls(cf.node) if q.is_call(c, "self." + fi.name)]
@@ -134,7 +143,7 @@ def admission(ck):
                     ok = True
                     for cf, c in sites:
                         cgf = guard_facts(cf, eff)
-                        if not all(_capacity_implied(cgf[n.id]) for n in cf.cfg.nodes_for(c)):
+                        if not all(_capacity_implied(cgf[n.id], repo, cf) for n in cf.cfg.nodes_for(c)):
                             ok = False
             ck.ob("C09.admit-guard", fi, st, ok, "self.active[k] = ... only where the guards imply len(self.active) < self.max_clients")
         for st in q.stores_to(fi.node, "self.active"):
@@ -189,7 +198,8 @@ def admission(ck):
 
     # -- enqueue (queue + waiting) strictly before the queue is processed
     procs = fimpl.cfg.stmt_nodes(node_calls("self._process_queue"))
-    ck.floor("C09.enqueue-before-process", len(procs), 1, "_process_queue calls in fetch_impl")
+    efp = event_facts(fimpl, {"proc": node_calls("self._process_queue")}, cond_facts=False)
+    ck.ob("C09.enqueue-before-process", fimpl, fimpl.node, ("@proc", True) in efp[fimpl.cfg.exit.id], "fetch_impl processes the queue on every path (a submitted request is started as soon as a slot is free)", construct="fetch_impl calls _process_queue on every path")
     ef = event_facts(
         fimpl,
         {"queued": node_calls("self.queue.append"), "waiting": lambda n: n.kind == "stmt" and isinstance(n.ast, ast.Assign) and "self.waiting[]" in q.assigned_paths(n.ast)},
@@ -358,6 +368,13 @@ def completion(ck):
             bad = _not_followed(fi, lambda n: n.id in ids, node_calls("self._release"))
             ck.ob("C09.release-on-complete", fi, st, before or not bad, "the client slot is released (self._release()) on every path on which the final callback is taken")
 
+    # the slot is given back only at completion points (functions that take the final callback)
+    n_rel = 0
+    for f in ck.repo.direct_methods(SH, CONN):
+        for c in q.find_calls(f.node, "self._release"):
+            n_rel += 1
+            ck.ob("C09.release-on-complete", f, c, f.qualname in takes, "self._release() is called only where the fetch completes (or is handed to the redirected fetch); releasing earlier lets more than max_clients requests be in progress")
+    ck.floor("C09.release-on-complete", n_rel, 1, "_release call sites")
     # every way a request can end reaches the completion callback
     run_ = ck.func(SH, CONN + ".run")
     body = [st for st in run_.node.body if not (isinstance(st, ast.Expr) and isinstance(st.value, ast.Constant))]
@@ -547,22 +564,23 @@ def redirects(ck):
     rets = [n for n in q.walk_body(sfr.node) if isinstance(n, ast.Return) and n.value is not None and not isinstance(n.value, ast.Constant)]
     ck.floor("C09.redirect-follow-table", len(rets), 1, "non-constant returns in _should_follow_redirect")
     for r in rets:
+        rv = expand_expr(ck.repo, sfr, r.value)
         codes = set()
         folded = 0
         for c in range(100, 600):
-            v, k = fold_conj_partial(r.value, {"self.code": c})
+            v, k = fold_conj_partial(rv, {"self.code": c})
             folded = max(folded, k)
             if v:
                 codes.add(c)
         ck.need(folded >= 1, "no conjunct of the follow predicate tests self.code")
         ck.ob("C09.redirect-follow-table", sfr, r, codes == REDIRECT_CODES, "followed statuses are exactly 301, 302, 303, 307, 308 (found %s)" % sorted(codes))
-        mr_paths = sorted({d for x in ast.walk(r.value) for d in [q.dotted(x)] if d and d.endswith(".max_redirects")})
+        mr_paths = sorted({d for x in ast.walk(rv) for d in [q.dotted(x)] if d and d.endswith(".max_redirects")})
         ck.need(mr_paths, "the follow predicate does not test max_redirects")
         allowed = set()
         for k in range(-2, 6):
             env = {p: k for p in mr_paths}
             env["self.code"] = 302
-            v, _ = fold_conj_partial(r.value, env)
+            v, _ = fold_conj_partial(rv, env)
             if v:
                 allowed.add(k)
         ck.ob("C09.redirect-follow-table", sfr, r, allowed == {1, 2, 3, 4, 5}, "a redirect is followed only while max_redirects > 0 (true for %s of -2..5)" % sorted(allowed))
@@ -617,7 +635,7 @@ def redirects(ck):
     for st in rew:
         iff = _enclosing_if(pm, st, fn)
         ck.need(iff is not None, "method rewrite is not under a condition")
-        test = _resolve_test(fn, iff.test)
+        test = expand_expr(ck.repo, fin, iff.test)
         ok = True
         detail = []
         for c in sorted(REDIRECT_CODES):
@@ -644,11 +662,14 @@ def redirects(ck):
     ck.floor("C09.cross-origin-test", len(strip_marks), 1, "%s.auth_username = None" % nr)
     strip_if = _enclosing_if(pm, strip_marks[0], fn)
     ck.need(strip_if is not None, "credential stripping is not under a cross-origin condition")
-    test = _resolve_test(fn, strip_if.test)
+    test = expand_expr(ck.repo, fin, strip_if.test)
     bases: Dict[str, str] = {}
     for x in ast.walk(test):
         if isinstance(x, ast.Attribute) and isinstance(x.value, ast.Name) and x.attr in ("scheme", "netloc", "hostname", "port", "username", "password"):
             bases.setdefault(x.value.id, "")
+    if len(bases) == 1:
+        ck.ob("C09.cross-origin-test", fin, strip_if.test, False, "the cross-origin test compares the redirect target with the request's URL (it only looks at %s)" % sorted(bases))
+        return
     ck.need(len(bases) == 2, "cross-origin test does not compare two parsed URLs (found %s)" % sorted(bases))
     test_nodes = [n for n in fin.cfg.stmt_nodes(lambda n: n.kind == "test" and any(n.ast is x for x in ast.walk(strip_if.test)))]
     ck.need(test_nodes, "cross-origin test not on the CFG")
@@ -741,8 +762,28 @@ def redirects(ck):
             nodes = fin.cfg.nodes_for(st)
             ok = bool(nodes) and all(all(n.id in doms[t] for t in test_ids) for n in nodes)
             ck.ob("C09.strip-order", fin, st, ok, "%s.%s is (re)assigned only before the cross-origin decision" % (nr, what))
+    after_decision = _reach(fin.cfg, test_ids, stop=set())
+    for n in fin.cfg.stmt_nodes(lambda n: n.kind == "stmt" and n.id in after_decision):
+        if any(n.ast is x for s_ in body for x in ast.walk(s_)):
+            continue
+        adds = [c for c in q.calls(n.ast) if q.receiver(c) == hdrs and q.call_attr(c) in ("update", "add", "setdefault", "parse_line", "__setitem__")]
+        sub = isinstance(n.ast, (ast.Assign, ast.AugAssign)) and (hdrs + "[]") in q.assigned_paths(n.ast)
+        if adds or sub:
+            names = set()
+            if sub:
+                for t in (n.ast.targets if isinstance(n.ast, ast.Assign) else [n.ast.target]):
+                    if isinstance(t, ast.Subscript) and isinstance(t.slice, ast.Constant):
+                        names.add(str(t.slice.value).lower())
+                    else:
+                        names.add("?")
+            ok = bool(names) and not adds and "?" not in names and not (names & CREDENTIAL_HEADERS)
+            ck.ob("C09.strip-order", fin, n.ast, ok, "after the cross-origin decision no header that may carry credentials is (re)added to the redirected request")
     for fnode in fetch_nodes:
         ck.ob("C09.strip-order", fin, fetch_call, all(_reaches(fin.cfg, t, {fnode.id}) for t in test_ids) and not any(_reaches(fin.cfg, fnode.id, {t}) for t in test_ids), "the cross-origin decision precedes the redirected fetch")
+    # the request object handed on is a copy (modifying it must not change the URL the decision is compared with)
+    nr_defs = [st for st in q.stores_to(fn, nr)]
+    ok_copy = bool(nr_defs) and all(isinstance(getattr(st, "value", None), ast.Call) and (q.dotted(st.value.func) in ("copy.copy", "copy.deepcopy", "copy", "deepcopy", "HTTPRequest", "httpclient.HTTPRequest")) for st in nr_defs)
+    ck.ob("C09.strip-order", fin, nr_defs[0] if nr_defs else fn, ok_copy, "the redirected request is a copy of the current one (its url/headers are edited while the original URL is still needed for the cross-origin decision)")
     # the request object handed on is a copy carrying copied headers
     cp = [st for st in q.stores_to(fn, hdrs) if isinstance(getattr(st, "value", None), ast.Call) and q.call_attr(st.value) in ("copy", "HTTPHeaders")]
     ck.ob("C09.strip-order", fin, fn, len(cp) >= 1, "the redirected request gets its own copy of the headers", construct="headers copied for the redirected request")
@@ -959,7 +1000,46 @@ def _undo_f1_repair(root):
     return True
 
 
+def _origin_helper_without_scheme(root):
+    # seeded C09-adv1: cross-origin decision through a helper (hostname, port-or-default), scheme no longer compared
+    cls = root
+    helper = ast.parse(
+        "@staticmethod\ndef _origin(parts):\n    return parts.hostname, parts.port or (443 if parts.scheme == 'https' else 80)\n"
+    ).body[0]
+    cls.body.append(helper)
+    for n in ast.walk(cls):
+        if isinstance(n, ast.If) and isinstance(n.test, ast.BoolOp) and "netloc" in _src(n.test) and "scheme" in _src(n.test):
+            n.test = parse_expr("self._origin(parsed_orig_url) != self._origin(parsed_new_url)")
+            return True
+    return False
+
+
+def _rewrite_through_helper_dropping_head(root):
+    cls = root
+    helper = ast.parse("def _becomes_get(self):\n    return self.code == 303 or (self.code in (301, 302) and self.request.method == 'POST')\n").body[0]
+    cls.body.append(helper)
+    for n in ast.walk(cls):
+        if isinstance(n, ast.If) and isinstance(n.test, ast.BoolOp) and "303" in _src(n.test) and "HEAD" in _src(n.test):
+            n.test = parse_expr("self._becomes_get()")
+            return True
+    return False
+
+
+def _capacity_helper_off_by_one(root):
+    cls = root
+    helper = ast.parse("def _has_capacity(self):\n    return len(self.active) <= self.max_clients\n").body[0]
+    cls.body.append(helper)
+    for n in ast.walk(cls):
+        if isinstance(n, ast.While) and isinstance(n.test, ast.BoolOp) and "max_clients" in _src(n.test):
+            n.test.values = [v if "max_clients" not in _src(v) else parse_expr("self._has_capacity()") for v in n.test.values]
+            return True
+    return False
+
+
 MUTANTS = [
+    ("seeded C09-adv1: cross-origin decision via _origin() helper without the scheme", _in(SH, CONN, _origin_helper_without_scheme), "C09.cross-origin-test"),
+    ("method rewrite via helper that forgets the HEAD exemption", _in(SH, CONN, _rewrite_through_helper_dropping_head), "C09.redirect-method-rewrite"),
+    ("capacity test via helper with <=", _in(SH, CLIENT, _capacity_helper_off_by_one), "C09.admit-guard"),
     ("undo the F1 repair: __delitem__ deletes from the partial cache first", _in(HU, "HTTPHeaders.__delitem__", _undo_f1_repair), "C09.strip-delete-effective"),
     ("admission loop ignores max_clients", _in(SH, CLIENT + "._process_queue", _drop_capacity_test), "C09.admit-guard"),
     ("admission off by one (<= max_clients)", _in(SH, CLIENT + "._process_queue", _lt_to_le), "C09.admit-guard"),
@@ -970,6 +1050,7 @@ MUTANTS = [
     ("final_callback invoked without clearing", _in(SH, CONN + "._run_callback", remove_stmts(lambda st: isinstance(st, ast.Assign) and _src(st.targets[0]) == "self.final_callback")), "C09.final-callback-tac"),
     ("final_callback scheduled directly", _in(SH, CONN + "._run_callback", replace_stmt(lambda st: isinstance(st, ast.If), lambda st: [parse_stmt("self.io_loop.add_callback(self.final_callback, response)")])), "C09.final-callback-tac"),
     ("release_callback called without clearing", _in(SH, CONN + "._release", remove_stmts(lambda st: isinstance(st, ast.Assign) and _src(st.targets[0]) == "self.release_callback")), "C09.release-callback-tac"),
+    ("slot released as soon as the headers arrive", _in(SH, CONN + ".headers_received", replace_stmt(lambda st: isinstance(st, ast.Assign) and _src(st.targets[0]) == "self.code", lambda st: [st, parse_stmt("self._release()")])), "C09.release-on-complete"),
     ("redirect path keeps the client slot", _in(SH, CONN + ".finish", remove_stmts(lambda st: _src(st) == "self._release()")), "C09.release-on-complete"),
     ("run() only completes the fetch for IOError", _in(SH, CONN + ".run", replace_expr(lambda n: isinstance(n, ast.ExceptHandler), lambda n: ast.ExceptHandler(type=ast.Name(id="IOError", ctx=ast.Load()), name=n.name, body=n.body))), "C09.error-completes"),
     ("_handle_exception completes only for stream errors", _in(SH, CONN + "._handle_exception", replace_stmt(lambda st: isinstance(st, ast.Expr) and "_run_callback" in _src(st), lambda st: [ast.If(test=parse_expr("isinstance(value, IOError)"), body=[st], orelse=[])])), "C09.error-completes"),
@@ -980,6 +1061,10 @@ MUTANTS = [
     ("max_redirects not decremented", _in(SH, CONN + ".finish", replace_expr(lambda n: isinstance(n, ast.BinOp) and isinstance(n.op, ast.Sub) and "max_redirects" in _src(n.left), lambda n: n.left)), "C09.redirect-decrement"),
     ("303 to HEAD rewritten to GET", _in(SH, CONN + ".finish", _drop_head_exemption), "C09.redirect-method-rewrite"),
     ("Content-Length kept on the rewritten GET", _in(SH, CONN + ".finish", _drop_from_list("Content-Length")), "C09.redirect-method-rewrite"),
+    ("redirected request aliases the current request (no copy)", _in(SH, CONN + ".finish", replace_expr(lambda n: isinstance(n, ast.Call) and _src(n.func) == "copy.copy" and "request" in _src(n.args[0]), lambda n: n.args[0])), "C09.strip-order"),
+    ("cross-origin test compares the original URL with itself", _in(SH, CONN + ".finish", replace_expr(lambda n: isinstance(n, ast.Name) and n.id == "parsed_new_url" and isinstance(n.ctx, ast.Load), lambda n: ast.Name(id="parsed_orig_url", ctx=ast.Load()), limit=2)), "C09.cross-origin-test"),
+    ("fetch_impl only processes the queue when nothing is active", _in(SH, CLIENT + ".fetch_impl", replace_stmt(lambda st: isinstance(st, ast.Expr) and "_process_queue" in _src(st), lambda st: [ast.If(test=parse_expr("not self.active"), body=[st], orelse=[])])), "C09.enqueue-before-process"),
+    ("original headers merged back after the strip", _in(SH, CONN + ".finish", replace_stmt(lambda st: isinstance(st, ast.Delete) and _src(st) == "del new_request.headers['Host']", lambda st: [parse_stmt("new_request.headers.update(self.request.headers)"), st])), "C09.strip-order"),
     ("cross-origin test compares the scheme only", _in(SH, CONN + ".finish", _only_scheme), "C09.cross-origin-test"),
     ("cross-origin test ignores the port (hostname)", _in(SH, CONN + ".finish", _hostname_only), "C09.cross-origin-test"),
     ("Cookie not stripped", _in(SH, CONN + ".finish", _drop_from_list("Cookie")), "C09.strip-credentials"),
